@@ -595,8 +595,9 @@ func genArrayPool(elem string) func(r *rand.Rand, c *core.Ctx) c18Pool {
 				exprs = append(exprs, respell(k))
 			}
 		}
-		cmp := elem == "Int" || elem == "Int8" || elem == "UInt64" || elem == "String" || elem == "Character" || elem == "Bool"
-		return c18Pool{Kind: typ, Type: typ, Decls: decls, Exprs: trimPool(r, exprs, 12, 18), Comparable: cmp}
+		// arrays are equatable but not comparable: the checker rejects `[1] < [2]`
+		// (sema Variable/ConstantSizedType.IsComparable is false since fix 09e26f0)
+		return c18Pool{Kind: typ, Type: typ, Decls: decls, Exprs: trimPool(r, exprs, 12, 18), Comparable: false}
 	}
 }
 
@@ -613,7 +614,7 @@ func genConstArrayPool(r *rand.Rand, c *core.Ctx) c18Pool {
 			exprs = append(exprs, fmt.Sprintf("[%d, %d].toConstantSized<[Int; 2]>()!", a, b))
 		}
 	}
-	return c18Pool{Kind: "[Int;2]", Type: "[Int; 2]", Exprs: exprs, Comparable: true}
+	return c18Pool{Kind: "[Int;2]", Type: "[Int; 2]", Exprs: exprs, Comparable: false}
 }
 
 func genDictPool(kt, vt string) func(r *rand.Rand, c *core.Ctx) c18Pool {
